@@ -3,8 +3,8 @@ import os, itertools
 from common import *
 
 PID = 'C17'
-TARGETS = ['Properties/C17.vo', 'Bridge/DescBridge.vo', 'Bridge/InitBridge.vo', 'Bridge/PlumbingBridge.vo', 'Bridge/MiscAutoBridge.vo', 'Bridge/RefBridge.vo']
-KERNELS = ['G7_auto', 'G15_init', 'G17_builder', 'G20c_auto_ctor', 'G16_ref']      # G15_init: the constructor path that hands a keyword to the descriptor
+TARGETS = ['Properties/C17.vo', 'Bridge/DescBridge.vo', 'Bridge/InitBridge.vo', 'Bridge/PlumbingBridge.vo', 'Bridge/MiscAutoBridge.vo', 'Bridge/RefBridge.vo', 'Bridge/CodegenBridge.vo']
+KERNELS = ['G7_auto', 'G15_init', 'G17_builder', 'G20c_auto_ctor', 'G16_ref', 'G11_codegen']     # G11_codegen: generated pack code decides where the descriptor hooks are called      # G15_init: the constructor path that hands a keyword to the descriptor
 PROP_FILE = 'Properties/C17.v'
 
 HEADER_COQ = """From Coq Require Import ZArith List Bool.
@@ -71,20 +71,21 @@ def run(tier, seed, rng):
     steps = [('set_tracked', 0), ('set_tracked', 3), ('set', 7), ('set', 0), ('del',), ('pack',), ('construct', 1, None),
              ('construct', 2, 9), ('construct', 3, 0), ('unpack', 3, 3)]
     hs = []
-    for cls in ('LenG', 'LenL', 'FunG', 'FunL', 'EmbG', 'EmbL', 'PlaG', 'PlaL', 'FunA', 'RefG', 'RefL'):      # Pla*, FunA: the described field is positioned (.at / class-wide align)      # Emb*: the described field lives in a packet embedded with Ref(.., embed=True)
+    for cls in ('LenG', 'LenL', 'FunG', 'FunL', 'EmbG', 'EmbL', 'PlaG', 'PlaL', 'FunA', 'RefG', 'RefL', 'WidG', 'WidL', 'FunW'):      # Wid*, FunW: a described integer of 3 / 5 bytes (no struct code)
+             # Pla*, FunA: the described field is positioned (.at / class-wide align)      # Emb*: the described field lives in a packet embedded with Ref(.., embed=True)
         for st in starts:
-            if cls.startswith(('Len', 'Emb', 'Pla', 'Ref')) and st[0] == 'unpack' and st[1] != st[2]:
+            if cls.startswith(('Len', 'Emb', 'Pla', 'Ref', 'Wid')) and st[0] == 'unpack' and st[1] != st[2]:
                 continue
             for L in range(0, maxlen + 1):
                 for combo in itertools.product(steps, repeat=L):
                     hs.append(dict(cls=cls, ops=[list(st)] + [list(o) for o in combo]))
     # random longer histories
     for _ in range(400 if tier == 'quick' else 4000):
-        cls = rng.choice(['LenG', 'LenL', 'FunG', 'FunL', 'EmbG', 'EmbL', 'PlaG', 'PlaL', 'FunA', 'RefG', 'RefL'])
+        cls = rng.choice(['LenG', 'LenL', 'FunG', 'FunL', 'EmbG', 'EmbL', 'PlaG', 'PlaL', 'FunA', 'RefG', 'RefL', 'WidG', 'WidL', 'FunW'])
         hs.append(dict(cls=cls, ops=[list(rng.choice(starts[:3]))] + [list(rng.choice(steps)) for _ in range(rng.randint(5, 12))]))
     # unpack of the Len classes parses `parsed` data bytes: tracked length = parsed
     for h in hs:
-        if h['cls'].startswith(('Len', 'Emb', 'Pla', 'Ref')):
+        if h['cls'].startswith(('Len', 'Emb', 'Pla', 'Ref', 'Wid')):
             for op in h['ops']:
                 if op[0] == 'unpack':
                     op[1] = op[2]
@@ -94,7 +95,7 @@ def run(tier, seed, rng):
     failures, lines = [], []
     dist = dict(steps=0, packs=0, reads_explicit=0, reads_computed=0, exceptions=0, has_dict=0, two_described_histories=0)
     for h, o in zip(hs, outcomes):
-        kind = 0 if h['cls'].startswith(('Len', 'Emb', 'Pla', 'Ref')) else 1
+        kind = 0 if h['cls'].startswith(('Len', 'Emb', 'Pla', 'Ref', 'Wid')) else 1
         want = spec_run(kind, h['ops'])
         got = []
         for step in o:
@@ -116,7 +117,7 @@ def run(tier, seed, rng):
             obs = "[(-1, None)]"       # an exception or a read that is not an integer: never agrees with the model
         lines.append(f"({kind}, [{'; '.join(cq_op(op) for op in h['ops'])}], {obs})")
     for h in hs:
-        for (r, w), op in zip(spec_run(0 if h['cls'].startswith(('Len', 'Emb', 'Pla', 'Ref')) else 1, h['ops']), h['ops']):
+        for (r, w), op in zip(spec_run(0 if h['cls'].startswith(('Len', 'Emb', 'Pla', 'Ref', 'Wid')) else 1, h['ops']), h['ops']):
             pass
     # ---- TWO described fields in one packet (names chosen alike: size / csize, len / dlen, id / crc): whatever is done to one of them
     # -- set, delete, change of its tracked field -- the other keeps reading as computed and is serialized as such
@@ -215,7 +216,7 @@ def replay(f):
     if 'history' not in f:
         return True, f
     o = run_impl(os.path.join(VERIF, 'harness', 'impl_desc.py'), dict(histories=[f['history']]))[0]
-    kind = 0 if f['history']['cls'].startswith(('Len', 'Emb', 'Pla', 'Ref')) else 1
+    kind = 0 if f['history']['cls'].startswith(('Len', 'Emb', 'Pla', 'Ref', 'Wid')) else 1
     want = spec_run(kind, f['history']['ops'])
     got = [(s[1], s[2]) if s[0] == 'ok' else ('exc', s[1]) for s in o]
     return got != want, dict(observed=got, required=want)
